@@ -85,6 +85,9 @@ Inductive auth_case :=
   | CScramHistory (tb : tables) (decode_salt : bool) (password authid : str) (ops : list scram_op)
                   (expected : list (result (list N)))                (* one outcome per call, see scram_obj_step *)
                   (expected_state : option bytes * option bytes)     (* _auth_message, _salted_password afterwards *)
+  | CSessionWelcome (tb : tables) (strict : bool) (configured : option (list str))
+                    (state : option bytes * option bytes)            (* _auth_message, _salted_password of the AuthScram *)
+                    (authmethod : option str) (ax : w_authextra) (expected_joined : bool)
   | CScramCred (tb : tables) (password : str) (salt : bytes) (expected : result (bytes * bytes))
   | CCsSign (tb : tables) (seed : bytes) (challenge : pyval) (cid : option bytes) (cid_type : option str)
             (expected : result str)
@@ -128,6 +131,9 @@ Definition auth_case_ok (c : auth_case) : bool :=
   | CScramHistory tb ds pw aid ops e est =>
     let '(o, outs) := r_scram_run tb ds pw aid scram_fresh ops in
     list_res_eqb outs e && opt_eqb (so_am o) (fst est) && opt_eqb (so_sp o) (snd est)
+  | CSessionWelcome tb strict cfg st am ax e =>
+    let o := {| so_nonce := None; so_am := fst st; so_sp := snd st |} in
+    Bool.eqb (match session_on_welcome (look2 (t_hmac256 tb)) strict cfg o am ax with Joined => true | Aborted => false end) e
   | CScramCred tb pw salt e => res_eqb eqb2 (r_scram_cred tb pw salt) e
   | CCsSign tb seed ch cid ct e => res_eqb list_eqb (r_cs_sign tb seed ch cid ct) e
   | CXor a b e => res_eqb list_eqb (xor a b) e
